@@ -19,7 +19,9 @@ Accept(o) ==
     /\ Len(o.out) >= Len(o.aux.pre) + Len(o.aux.post)
     /\ IsPrefixOf(o.aux.pre, o.out) /\ IsSuffixOf(o.aux.post, o.out)
     /\ LET mid == SubSeq(o.out, Len(o.aux.pre) + 1, Len(o.out) - Len(o.aux.post)) IN
-       IF o.aux.isd THEN mid = <<100>> ELSE ValidEscape(o.aux.in, mid)
+       IF o.aux.isd THEN mid = <<100>>
+       ELSE IF "twice" \in DOMAIN o.aux /\ o.aux.twice THEN ValidEscape2(o.aux.in, mid)      \* the filter applied to its own output
+       ELSE ValidEscape(o.aux.in, mid)
 
 Init == l = 1 /\ rej = {} /\ TLCSet(1, {}) /\ TLCSet(2, 0)
 Next == /\ l <= Len(Trace)
